@@ -184,7 +184,7 @@ PROPS["C15"] = {
     "expect_theorems": ["Narwhal.Writer.writeAll_prefix", "Narwhal.Writer.writeAll_terminates", "Narwhal.Writer.iov_layout",
                         "Narwhal.Writer.C15_bytes_are_frames", "Narwhal.Writer.trySend_total", "Narwhal.Writer.C15_non_interference",
                         "Narwhal.Writer.C15_overflow_closes_self"],
-    "suites": {"writer": {"kind": "lines", "nvh_suite": "writer", "driver_suite": "writer", "op_prefixes": ["frames", "wav", "overflow"],
+    "suites": {"writer": {"kind": "lines", "nvh_suite": "writer", "driver_suite": "writer", "op_prefixes": ["frames", "wav", "overflow", "interrupted"],
                           "cases": {"quick": 60, "thorough": 1500}, "oracle_tags": ["C15"]}},
     "rule": "bursts of 1..300 mixed frames (with/without payload, payload sizes 1..257 incl. LF bytes) injected through the real ConnTx of a real "
             "connection whose pipe holds 1, 7, 64, 4096 or 2^20 bytes and whose peer reads 1/3/64/64K bytes at a time; queue overflow cases; and "
@@ -205,7 +205,7 @@ PROPS["C15"] = {
 PROPS["C02"]["theorems"] = ["Narwhal.Theorems.C01", "Narwhal.Theorems.C15"]
 PROPS["C02"]["expect_theorems"] += ["Narwhal.Writer.C15_bytes_are_frames", "Narwhal.Writer.trySend_total"]
 PROPS["C02"]["audit_files"] += ["Narwhal/Model/Writer.lean"]
-PROPS["C02"]["suites"]["writer"] = {"kind": "lines", "nvh_suite": "writer", "driver_suite": "writer", "op_prefixes": ["frames", "wav", "overflow"],
+PROPS["C02"]["suites"]["writer"] = {"kind": "lines", "nvh_suite": "writer", "driver_suite": "writer", "op_prefixes": ["frames", "wav", "overflow", "interrupted"],
                                     "cases": {"quick": 60, "thorough": 1500}, "oracle_tags": ["C15", "C02"]}
 
 PROPS["C19"] = {
